@@ -64,6 +64,8 @@ SIGS = {
     'support': ['int'],
     'is_essential': ['int', 'int'],
     'assert_consistent': [],
+    'copy_manager': ['int', 'lint'],
+    'reduction': ['int', 'lint', 'lint'],
 }
 
 
@@ -220,6 +222,10 @@ class Session:
             self.expect.append(res + '\t' + self.impl.digest(args[0]) + ' | ' + self.impl.digest(m))
         elif self.full and name == 'bdd_to_mdd':
             self.expect.append(None)      # failed conversions: only later states are compared
+        elif self.full and name == 'reduction' and m in self.impl.mgr and res.startswith('ok:'):
+            self.expect.append(res + '\t' + self.impl.digest(m) + ' | ' + self.impl.digest(args[0]))
+        elif self.full and name == 'reduction':
+            self.expect.append(None)
         elif self.full and (m in self.impl.mgr or m in self.impl.amgr or m in self.impl.mmgr):
             self.expect.append(res + '\t' + self.impl.digest(m))
         else:
